@@ -1,5 +1,236 @@
-(* C16 - author identities.  Only statements closed by [exact] and their assumptions. *)
-From Coq Require Import List ZArith.
-From Herc Require Import Plumbing.IdStr Plumbing.Identity Plumbing.IdentityMerge.
+(* C16 - author identities resolve totally and merge as connected components
+   (internal/plumbing/identity/identity.go).  Only statements closed by [exact] and their assumptions.
+
+   Vocabulary (definitions in theories/Plumbing/{IdStr,Identity,IdentityMerge,IdentityMergeProofs}.v):
+   - a string is the list of its bytes; a commit is the pair (Author.Name, Author.Email);
+   - [lower] is strings.ToLower: the theorems hold for ANY function (no hypothesis on it);
+   - [order] / [sel] are Go's map iteration orders: any permutation ([order_ok], [sel_ok]);
+   - [generate_people_dict lower exact order cs] = Some (PeopleDict, ReversedPeopleDict), None = the Go
+     panic on an empty commit list; [consume] is Detector.Consume;
+   - [first_role lower cs k] = (n, e): the key k was first seen in cs as a (lower-cased) name / as an e-mail;
+   - [merge_reversed_dicts_identities sel rd1 rd2] = Some (index map, merged list);
+   - [connected ids s t]: reflexive-transitive closure of "s and t are in ids and share a part of
+     strings.Split(_, "|")";
+   - [merge_domb rd1 rd2]: no part occurs in two different entries of the same input list. *)
+From Coq Require Import List ZArith Permutation Sorted.
+From Herc Require Import Plumbing.IdStr Plumbing.Identity Plumbing.IdentityProofs
+  Plumbing.IdentityMerge Plumbing.IdentityMergeProofs Plumbing.IdentityMergeMain
+  Plumbing.IdentityMergeTheorems Plumbing.IdentityDomain.
 Import ListNotations.
-Open Scope Z_scope.
+Local Open Scope Z_scope.
+
+(* ---------- GeneratePeopleDict + Consume ---------- *)
+
+(* every author of the list resolves to a developer index below the number of developers *)
+Theorem C16_total : forall lower exact order cs dict rev, order_ok order ->
+  generate_people_dict lower exact order cs = Some (dict, rev) ->
+  forall c, In c cs ->
+  exists d, lookup_author lower exact dict c = Some d /\ consume lower exact dict c = Z.of_nat d /\
+            (d < length rev)%nat.
+Proof. exact gen_total. Qed.
+Print Assumptions C16_total.
+
+(* same e-mail, case-insensitively -> same developer *)
+Theorem C16_same_email : forall lower order cs dict rev, order_ok order ->
+  generate_people_dict lower false order cs = Some (dict, rev) ->
+  forall c1 c2, In c1 cs -> In c2 cs -> lower (c_email c1) = lower (c_email c2) ->
+  consume lower false dict c1 = consume lower false dict c2.
+Proof. exact gen_same_email. Qed.
+Print Assumptions C16_same_email.
+
+(* exact-signature mode: same lower-cased "Name <Email>" -> same developer ... *)
+Theorem C16_same_signature : forall lower order cs dict rev, order_ok order ->
+  generate_people_dict lower true order cs = Some (dict, rev) ->
+  forall c1 c2, In c1 cs -> In c2 cs -> lower (sig_string c1) = lower (sig_string c2) ->
+  consume lower true dict c1 = consume lower true dict c2.
+Proof. exact gen_same_signature. Qed.
+Print Assumptions C16_same_signature.
+
+(* ... which for ASCII lower-casing follows from the same name and the same e-mail, case-insensitively *)
+Theorem C16_same_name_and_email : forall c1 c2,
+  lower_ascii (c_name c1) = lower_ascii (c_name c2) -> lower_ascii (c_email c1) = lower_ascii (c_email c2) ->
+  lower_ascii (sig_string c1) = lower_ascii (sig_string c2).
+Proof. exact lower_ascii_sig. Qed.
+Print Assumptions C16_same_name_and_email.
+
+(* the dictionary holds exactly the lower-cased names and e-mails (signatures) in use *)
+Theorem C16_dict_keys : forall lower exact order cs dict rev,
+  generate_people_dict lower exact order cs = Some (dict, rev) ->
+  forall k, (exists d, sget dict k = Some d) <-> key_used lower exact cs k = true.
+Proof. exact gen_dict_keys. Qed.
+Print Assumptions C16_dict_keys.
+
+(* each description is "names|e-mails", both sorted and duplicate-free, and lists exactly the keys
+   attached to the developer: the names are the keys first seen as a name, the e-mails those first seen
+   as an e-mail *)
+Theorem C16_description_exact : forall lower order cs dict rev, order_ok order ->
+  generate_people_dict lower false order cs = Some (dict, rev) ->
+  forall d, (d < length rev)%nat -> exists ns es,
+    nth d rev [] = join ns ++ bar :: join es /\
+    StronglySorted (leR str_ltb) ns /\ StronglySorted (leR str_ltb) es /\ NoDup ns /\ NoDup es /\
+    (forall k, In k ns <-> sget dict k = Some d /\ fst (first_role lower cs k) = true) /\
+    (forall k, In k es <-> sget dict k = Some d /\ snd (first_role lower cs k) = true) /\
+    (forall k, sget dict k = Some d -> In k ns \/ In k es).
+Proof. exact gen_description_loose. Qed.
+Print Assumptions C16_description_exact.
+
+(* exact-signature mode: the description is THE key of the developer, the signature of a commit *)
+Theorem C16_description_exact_signatures : forall lower order cs dict rev, order_ok order ->
+  generate_people_dict lower true order cs = Some (dict, rev) ->
+  forall d, (d < length rev)%nat ->
+    sget dict (nth d rev []) = Some d /\
+    (forall k, sget dict k = Some d -> k = nth d rev []) /\
+    (exists c, In c cs /\ nth d rev [] = lower (sig_string c)).
+Proof. exact gen_description_exact. Qed.
+Print Assumptions C16_description_exact_signatures.
+
+(* every developer has at least one key *)
+Theorem C16_developers_inhabited : forall lower exact order cs dict rev, order_ok order ->
+  generate_people_dict lower exact order cs = Some (dict, rev) ->
+  forall d, (d < length rev)%nat -> exists k, sget dict k = Some d.
+Proof. exact gen_developers_inhabited. Qed.
+Print Assumptions C16_developers_inhabited.
+
+(* boundary: Go indexes commits[len(commits)-1] and panics on an empty list *)
+Theorem C16_empty_list_panics : forall lower exact order, generate_people_dict lower exact order [] = None.
+Proof. exact gen_empty. Qed.
+Print Assumptions C16_empty_list_panics.
+
+(* ---------- MergeReversedDictsIdentities ---------- *)
+
+(* the function returns for all inputs (the fuel of the model's walk is never exhausted) *)
+Theorem C16_merge_returns : forall sel rd1 rd2, sel_ok sel ->
+  exists idx merged, merge_reversed_dicts_identities sel rd1 rd2 = Some (idx, merged).
+Proof. exact merge_returns. Qed.
+Print Assumptions C16_merge_returns.
+
+(* FALSE of the code as it is for arbitrary lists (finding F7): "a|p" gets no merged index in
+   ["q|z","a|p","b|p"] + ["z|b"] *)
+Theorem C16_merge_refuted :
+  exists rd1 rd2 s idx merged,
+    In s (rd1 ++ rd2) /\
+    merge_reversed_dicts_identities id_sel rd1 rd2 = Some (idx, merged) /\
+    sget idx s = None.
+Proof. exact merge_total_refuted. Qed.
+Print Assumptions C16_merge_refuted.
+
+Theorem C16_pointers_refuted :
+  exists rd1 rd2 idx merged mi,
+    merge_reversed_dicts_identities id_sel rd1 rd2 = Some (idx, merged) /\
+    sget idx (nth 0 rd1 []) = Some mi /\ mi_first mi <> 0.
+Proof. exact merge_pointers_refuted. Qed.
+Print Assumptions C16_pointers_refuted.
+
+(* In the domain [merge_domb rd1 rd2 = true] the merge half of the property holds in full. *)
+
+(* every input identity receives a merged index in range; the keys are input identities *)
+Theorem C16_merge_total : forall sel, sel_ok sel -> forall rd1 rd2, merge_domb rd1 rd2 = true ->
+  forall idx merged, merge_reversed_dicts_identities sel rd1 rd2 = Some (idx, merged) ->
+  (forall s, In s (rd1 ++ rd2) ->
+     exists mi, sget idx s = Some mi /\ 0 <= mi_final mi < Z.of_nat (length merged)) /\
+  (forall s mi, sget idx s = Some mi -> In s (rd1 ++ rd2)).
+Proof. intros sel Hs rd1 rd2 D idx merged H. split; [exact (merge_total sel Hs rd1 rd2 D idx merged H)|exact (merge_keys sel Hs rd1 rd2 D idx merged H)]. Qed.
+Print Assumptions C16_merge_total.
+
+(* two identities share a merged index iff they are connected *)
+Theorem C16_merge_components : forall sel, sel_ok sel -> forall rd1 rd2, merge_domb rd1 rd2 = true ->
+  forall idx merged, merge_reversed_dicts_identities sel rd1 rd2 = Some (idx, merged) ->
+  forall s t mi mj, In s (rd1 ++ rd2) -> In t (rd1 ++ rd2) ->
+  sget idx s = Some mi -> sget idx t = Some mj ->
+  (mi_final mi = mi_final mj <-> connected (rd1 ++ rd2) s t).
+Proof. exact merge_components. Qed.
+Print Assumptions C16_merge_components.
+
+(* the merged description is the duplicate-free union of the parts of the identities with that index *)
+Theorem C16_merge_union : forall sel, sel_ok sel -> forall rd1 rd2, merge_domb rd1 rd2 = true ->
+  forall idx merged, merge_reversed_dicts_identities sel rd1 rd2 = Some (idx, merged) ->
+  forall w, (w < length merged)%nat ->
+    NoDup (split (nth w merged [])) /\
+    forall p, In p (split (nth w merged [])) <->
+              exists s mi, In s (rd1 ++ rd2) /\ sget idx s = Some mi /\ mi_final mi = Z.of_nat w /\ In p (split s).
+Proof. exact merge_union. Qed.
+Print Assumptions C16_merge_union.
+
+(* First / Second are the original positions, -1 when the string is absent from that list *)
+Theorem C16_pointers : forall sel, sel_ok sel -> forall rd1 rd2, merge_domb rd1 rd2 = true ->
+  forall idx merged, merge_reversed_dicts_identities sel rd1 rd2 = Some (idx, merged) ->
+  (forall i, (i < length rd1)%nat -> exists mi, sget idx (nth i rd1 []) = Some mi /\ mi_first mi = Z.of_nat i) /\
+  (forall j, (j < length rd2)%nat -> exists mi, sget idx (nth j rd2 []) = Some mi /\ mi_second mi = Z.of_nat j) /\
+  (forall s mi, sget idx s = Some mi ->
+     (~ In s rd1 -> mi_first mi = -1) /\ (~ In s rd2 -> mi_second mi = -1)).
+Proof. exact merge_pointers. Qed.
+Print Assumptions C16_pointers.
+
+(* the domain is what GeneratePeopleDict produces: two generated dictionaries (names and e-mails
+   without "|") can always be merged *)
+Theorem C16_generated_lists_in_domain : forall lower exact order1 order2 cs1 cs2 dict1 rev1 dict2 rev2,
+  (forall s, nobar s -> nobar (lower s)) -> order_ok order1 -> order_ok order2 ->
+  Forall (fun c => nobar (c_name c) /\ nobar (c_email c)) cs1 ->
+  Forall (fun c => nobar (c_name c) /\ nobar (c_email c)) cs2 ->
+  generate_people_dict lower exact order1 cs1 = Some (dict1, rev1) ->
+  generate_people_dict lower exact order2 cs2 = Some (dict2, rev2) ->
+  merge_domb rev1 rev2 = true.
+Proof. exact generated_in_domain. Qed.
+Print Assumptions C16_generated_lists_in_domain.
+
+Theorem C16_lower_ascii_keeps_bars_out : forall s, nobar s -> nobar (lower_ascii s).
+Proof. exact lower_ascii_nobar. Qed.
+Print Assumptions C16_lower_ascii_keeps_bars_out.
+
+(* ---------- the executable statements the replay applies to the implementation's outputs ---------- *)
+Theorem C16_oracle_components_sound : forall rd1 rd2 idx, mcomponents_okb rd1 rd2 idx = true ->
+  forall s t, In s (rd1 ++ rd2) -> In t (rd1 ++ rd2) ->
+  (final_of idx s = final_of idx t <-> connected (rd1 ++ rd2) s t).
+Proof. exact mcomponents_okb_sound. Qed.
+Print Assumptions C16_oracle_components_sound.
+
+Theorem C16_oracle_total_sound : forall rd1 rd2 idx merged, mtotal_okb rd1 rd2 idx merged = true ->
+  forall s, In s (rd1 ++ rd2) ->
+  exists mi, sget idx s = Some mi /\ 0 <= mi_final mi < Z.of_nat (length merged).
+Proof. exact mtotal_okb_sound. Qed.
+Print Assumptions C16_oracle_total_sound.
+
+Theorem C16_oracle_pointers_sound : forall rd1 rd2 idx, mpointers_okb rd1 rd2 idx = true ->
+  (forall i, (i < length rd1)%nat -> exists mi, sget idx (nth i rd1 []) = Some mi /\ mi_first mi = Z.of_nat i) /\
+  (forall j, (j < length rd2)%nat -> exists mi, sget idx (nth j rd2 []) = Some mi /\ mi_second mi = Z.of_nat j).
+Proof. exact mpointers_okb_sound. Qed.
+Print Assumptions C16_oracle_pointers_sound.
+
+Theorem C16_oracle_union_sound : forall rd1 rd2 idx merged, munion_okb rd1 rd2 idx merged = true ->
+  forall w, (w < length merged)%nat -> forall p,
+  In p (split (nth w merged [])) <->
+  exists s, In s (rd1 ++ rd2) /\ final_of idx s = Z.of_nat w /\ In p (split s).
+Proof. exact munion_okb_sound. Qed.
+Print Assumptions C16_oracle_union_sound.
+
+(* ---------- non-vacuity ---------- *)
+(* "Bob <A@x>", "bob <b@y>", "Al <a@X>", "carl <b@y>": two developers, the first with two names *)
+Definition ex_commits : list (list Z * list Z) :=
+  [([66; 111; 98], [65; 64; 120]); ([98; 111; 98], [98; 64; 121]); ([65; 108], [97; 64; 88]); ([99; 97; 114; 108], [98; 64; 121])].
+
+Example C16_ex_generate :
+  generate_people_dict lower_ascii false id_order ex_commits =
+  Some ([([97; 64; 120], 0%nat); ([98; 111; 98], 0%nat); ([98; 64; 121], 0%nat); ([97; 108], 0%nat); ([99; 97; 114; 108], 0%nat)],
+        [[97; 108; 124; 98; 111; 98; 124; 99; 97; 114; 108; 124; 97; 64; 120; 124; 98; 64; 121]])
+  /\ map (consume lower_ascii false (fst (match generate_people_dict lower_ascii false id_order ex_commits with Some x => x | None => ([], []) end))) ex_commits = [0; 0; 0; 0]
+  /\ order_ok id_order.
+Proof. split; [vm_compute; reflexivity|]. split; [vm_compute; reflexivity|]. intros l. apply Permutation_refl. Qed.
+
+Example C16_ex_generate_exact :
+  option_map (fun x => length (snd x)) (generate_people_dict lower_ascii true id_order ex_commits) = Some 4%nat.
+Proof. vm_compute. reflexivity. Qed.
+
+(* "ann|ann@x", "bob|b@y" + "ann|other@x", "carl|c@z", "robert|b@y": three components, in the domain *)
+Definition ex_rd1 : list (list Z) := [[97; 110; 110; 124; 97; 110; 110; 64; 120]; [98; 111; 98; 124; 98; 64; 121]].
+Definition ex_rd2 : list (list Z) :=
+  [[97; 110; 110; 124; 111; 116; 104; 101; 114; 64; 120]; [99; 97; 114; 108; 124; 99; 64; 122]; [114; 111; 98; 101; 114; 116; 124; 98; 64; 121]].
+
+Example C16_ex_merge :
+  merge_domb ex_rd1 ex_rd2 = true /\ sel_ok id_sel /\
+  option_map (fun r => (map (fun kv => snd kv) (fst r), length (snd r))) (merge_reversed_dicts_identities id_sel ex_rd1 ex_rd2)
+  = Some ([(0, 0, -1); (0, -1, 0); (1, 1, -1); (1, -1, 2); (2, -1, 1)], 3%nat).
+Proof. split; [vm_compute; reflexivity|]. split; [intros l; apply Permutation_refl|vm_compute; reflexivity]. Qed.
+
+(* the witness of F7 lies outside the domain, as it must *)
+Example C16_ex_f7_outside : merge_domb f7_rd1 f7_rd2 = false.
+Proof. exact f7_outside_domain. Qed.
